@@ -3,103 +3,10 @@
 Explicit-state BFS over storage-operation histories on the real backends (memory, filesystem,
 filesystem + write-through cache of 4 KiB / 64 KiB, shared or separate metadata path); every
 answer is compared with a plain dictionary and every distinct canonical state is probed as a
-whole through a second, cache-less view.
+whole through a second, cache-less view (engine: vf/storemc.py).
 """
-import os
-
-from ..core import scratch_dir, rm
-from .. import bfs as vbfs
 from .. import storemc
-from ..storemc import StoreRun, KEYS
-
-
-def alphabet(keys, classes, small=False):
-    ops = []
-    for ki in range(len(keys)):
-        for c in classes:
-            ops.append(("memo", ki, c, None))
-        ops.append(("getm", ki))
-        ops.append(("read", ki))
-        ops.append(("ism", ki))
-        ops.append(("fc", ki))
-    if not small:
-        ops.append(("memo", 0, "s", "k1"))
-        ops.append(("memo", 2 % len(keys), "t", "k1"))
-        ops.append(("memo", 0, "N", "k1"))
-        ops.append(("wmeta", 0, "log", False))
-        ops.append(("wmeta", 0, "log", True))
-        ops.append(("wmeta", 2 % len(keys), "log", False))
-        ops.append(("rmeta", 0, "log"))
-        ops.append(("isall", (0, 2 % len(keys))))
-    for sym in sorted({s for s, _ in keys}):
-        ops.append(("ff", sym))
-        ops.append(("lsm", sym))
-    ops.append(("lsm", keys[0][0], 1))
-    ops.append(("fe",))
-    ops.append(("lsf",))
-    return ops
-
-
-_root = {}
-
-
-def _scratch():
-    pid = os.getpid()
-    if pid not in _root:
-        _root[pid] = os.path.join(scratch_dir("c05"), "store")
-    return _root[pid]
-
-
-def build(cfg, hist):
-    backend, keys, classes, small, depth, seed = cfg
-    run = StoreRun(backend, _scratch(), keys)
-    for op in hist:
-        run.step(op)
-    return run
-
-
-def signature(cfg, run, op, clause, hist):
-    backend = cfg[0]
-    bk = {"mem": "memory", "fs": "fs", "fs+m": "fs", "fsc4": "fs+cache", "fsc4+m": "fs+cache", "fsc64": "fs+cache"}[backend]
-    o = op[0]
-    if o == "memo":
-        o += ":" + op[2] + ("+override" if op[3] else "")
-    prev = "after:" + (hist[-1][0] + (":" + str(hist[-1][2]) if hist and hist[-1][0] == "memo" else "") if hist else "init")
-    return "%s|%s|%s|%s" % (bk, o, prev, clause)
-
-
-def expand(cfg, hist):
-    backend, keys, classes, small, depth, seed = cfg
-    out = []
-    # whole-state probe of the state reached by hist (once per canonical state)
-    run = build(cfg, hist)
-    bad = run.probe()
-    if bad:
-        clause, what = bad
-        last = hist[-1] if hist else ("init",)
-        sig = signature(cfg, run, last, clause, hist[:-1])
-        out.append((("probe",), None, (sig, what + "\nbackend=%s history: %s" % (backend, list(hist)),
-                                       {"backend": backend, "keys": keys, "history": [list(o) for o in hist], "probe": True}), None))
-        return out
-    if len(hist) >= depth:
-        return out
-    ops = alphabet(keys, classes, small)
-    if seed:
-        import random
-
-        random.Random(seed).shuffle(ops)
-    for op in ops:
-        run = build(cfg, hist)
-        bad = run.step(op)
-        if bad:
-            clause, what = bad
-            sig = signature(cfg, run, op, clause, hist)
-            out.append((op, None, (sig, what + "\nbackend=%s history: %s" % (backend, list(hist) + [op]),
-                                   {"backend": backend, "keys": keys, "history": [list(o) for o in hist] + [list(op)]}), None))
-            continue
-        k = run.canon()
-        out.append((op, vbfs.digest(k), None, "%s:%s" % (backend, vbfs.digest(k[0])[:10])))
-    return out
+from ..storemc import KEYS
 
 
 def configs(tier, seed):
@@ -107,15 +14,15 @@ def configs(tier, seed):
     if tier == "quick":
         full = ("s", "X", "N", "E")
         for b in ("mem", "fs", "fsc4", "fsc4+m"):
-            cfgs.append((b, KEYS, full, False, 2, seed))
+            cfgs.append(("c05", b, KEYS, full, False, 3 if b != "fs" else 2, seed))
         for b in ("mem", "fs+m", "fsc4", "fsc64"):
-            cfgs.append((b, KEYS[1:3], ("s", "L", "X"), True, 4, seed))
+            cfgs.append(("c05", b, KEYS[1:3], ("s", "L", "X"), True, 5 if b == "mem" else 4, seed))
     else:
         full = ("s", "L", "X", "N", "E")
         for b in ("mem", "fs", "fs+m", "fsc4", "fsc4+m", "fsc64"):
-            cfgs.append((b, KEYS, full, False, 3, seed))
+            cfgs.append(("c05", b, KEYS, full, False, 3 if b in ("fs+m", "fsc64") else 4, seed))
         for b in ("mem", "fs", "fs+m", "fsc4", "fsc64"):
-            cfgs.append((b, KEYS[1:3], ("s", "L", "X", "N"), True, 5, seed))
+            cfgs.append(("c05", b, KEYS[1:3], ("s", "L", "X", "N"), True, 6, seed))
     return cfgs
 
 
@@ -128,38 +35,12 @@ def run(ctx):
     ctx.assumptions += ["metadata is written only for existing mementos (the function-level API enforces this)",
                         "metadata stored with a data object is undefined once the result is re-memoized",
                         "booleans are compared by truthiness"]
-    # determinism self-check
-    c0 = ("fsc4", KEYS, ("s", "X"), False, 3, 0)
+    c0 = ("c05", "fsc4", KEYS, ("s", "X"), False, 3, 0)
     h = (("memo", 0, "s", None), ("memo", 1, "X", None), ("read", 0), ("fc", 1))
-    a = build(c0, h).canon()
-    b = build(c0, h).canon()
-    ctx.selfcheck("same history twice gives the same canonical state", a == b)
-    per = []
-    for cfg in configs(ctx.tier, ctx.seed):
-        init = vbfs.digest(build(cfg, ()).canon())
-        label = "%s keys=%d depth=%d" % (cfg[0], len(cfg[1]), cfg[4])
-        r = vbfs.explore(expand, cfg, init, max_depth=cfg[4] + 1, label=label)
-        # the depth cap is the stated bound, not an unexpected cap
-        r["caps"] = [c for c in r["caps"] if "depth cap" not in c]
-        ctx.merge([r])
-        per.append({"config": label, "states": r["states"], "transitions": r["transitions"], "closure": r["closure"]})
-    ctx.extra["configs"] = per
-    ctx.extra["bound"] = "op histories to the depth given per config; every state at that depth is still probed"
-    ctx.exhaustive = True
-    ctx.count(evaluations=ctx.transitions)
+    ctx.selfcheck("same history twice gives the same canonical state",
+                  storemc.build(c0, h).canon() == storemc.build(c0, h).canon())
+    storemc.run_configs(ctx, configs(ctx.tier, ctx.seed))
 
 
 def replay(ctx, art):
-    a = art["artefact"]
-    cfg = (a["backend"], [tuple(k) for k in a["keys"]], (), False, 99, 0)
-    hist = [tuple(tuple(x) if isinstance(x, list) else x for x in o) for o in a["history"]]
-    run = StoreRun(a["backend"], _scratch(), cfg[1])
-    bad = None
-    for op in hist:
-        bad = run.step(op)
-        print(op, "->", bad)
-    if not bad:
-        bad = run.probe()
-        print("probe ->", bad)
-    print("REPLAY property=%s result=%s" % (art["property"], bad))
-    return 1 if bad else 0
+    return storemc.replay_history(art)
